@@ -162,6 +162,35 @@ PROPS = {
                         "assumed: str::replace is a function of (text, from, to); assert_str_eq! panics iff its operands differ (R15); Result::{or_else,unwrap_or_default} specs added by hand"],
         "not_decided": ["what str::replace(\"\\r\\n\", \"\\n\") computes (std)", "real file-system effects"],
     },
+    "C16": {
+        "level": "proof",
+        "verus": [("csvsign", None)],
+        "kani": {"quick": [], "thorough": ["to_double_entry_signs"]},
+        "explanation": "PARTIAL.  Verus proves the sign clauses on the real functions: FieldMap::amount books a non-empty credit column as +credit, otherwise a non-empty debit column as -debit, neither as an error, and an "
+                       "`amount` column as +amount for an asset and -amount for a liability account; amount_with_sign gives the secondary amount the requested sign and keeps its magnitude and commodity; Neg for "
+                       "OwnedAmount/BorrowedAmount negates the value only.  Thorough tier (Kani on the real okane crate, one symbolic record): Txn::to_double_entry puts +amount (with the balance assertion) on the "
+                       "configured account first for a positive row and last for a negative one, the counter posting carries the opposite amount or the secondary amount with the opposite sign, Income:/Expenses:Unknown "
+                       "by direction and pending unless an account was assigned.  NOT decided: row order, column mapping/templates, conversion-rate orientation inside csv::import, acceptance by book-keeping.",
+        "units_doc": ["cli/src/import/csv.rs: FieldMap::amount", "cli/src/import/single_entry.rs: amount_with_sign (Verus), Txn::to_double_entry (Kani, thorough)", "cli/src/import/amount.rs: Neg impls, AmountRef::into_borrowed"],
+        "assumptions": [L0_DECIMAL, "assumed (L1): FieldMap::resolve returns the configured column/template text; str_to_comma_decimal returns None for an empty string, else the number written or an error (it is PrettyDecimal::from_str, C07)",
+                        "stand-ins for csv::StringRecord, Template, ImportError (vx/prelude/csv_stub.rs)", "Kani harness: RandomState::new stubbed with fixed keys (rates table stays empty)"],
+        "bounded": ["to_double_entry_signs: one record, i64 mantissa, scale <= 4, no charges, no rates"],
+        "not_decided": ["csv::import row loop (csv crate, regex, HashMap): row_order reversal, conversion block, templates", "that okane's book-keeping accepts the result"],
+    },
+    "C17": {
+        "level": "other",
+        "verus": [("config", None)],
+        "kani": {"quick": [], "thorough": ["extractor_matches_statement_2rules"]},
+        "technique": "contract-based deductive verification: Verus on ConfigFragment::merge; Kani on the real generic extractor code instantiated with a symbolic matcher (callee replaced by 'any answer')",
+        "explanation": "PARTIAL / BOUNDED.  Verus proves ConfigFragment::merge: the later document overrides each scalar setting that it sets and the rewrite rules are concatenated in order.  Thorough tier: Kani runs the real "
+                       "Extractor::extract / ExtractRule::extract / MatchOrExpr::extract / MatchAndExpr::extract / Fragment += / Fragment + Matched with a matcher whose answers are symbolic per payee seen, and compares all five "
+                       "Fragment fields with the statement written as plain loops (rules in order each seeing the rewritten payee; OR = first matching element; AND = all fields; captures then rule payee override; account "
+                       "replaces; cleared iff some matching account rule is not pending) for <= 2 rules x <= 2 OR x <= 2 AND.  NOT decided: ConfigSet::select_impl (substring match, stable sort, fold), regexes, YAML.",
+        "units_doc": ["cli/src/import/config.rs: ConfigFragment::merge", "cli/src/import/extract.rs: Extractor::extract, ExtractRule::extract, MatchOrExpr::extract, MatchAndExpr::extract, AddAssign for Fragment, Add<Matched> for Fragment (Kani, thorough)"],
+        "assumptions": ["stand-ins for Encoding, AccountCommodityConfig, FormatSpec, RewriteRule (merge never looks inside)", "Option::or spec added by hand"],
+        "bounded": ["extractor: <= 2 rules x <= 2 OR-elements x <= 2 AND-fields, names from {None, p1, p2}"],
+        "not_decided": ["ConfigSet::select_impl ordering and matching", "regex matchers and capture groups", "Income:/Expenses:Unknown fallback (decided under C16's Kani harness)"],
+    },
     "C19": {
         "level": "proof",
         "verus": [("columns", None)],
